@@ -1,6 +1,7 @@
 package interp
 
 import (
+	"go/types"
 	"go/token"
 	"strings"
 
@@ -104,18 +105,35 @@ func genericModel(name string) externalFn {
 func hasSuffix(s, suf string) bool { return len(s) >= len(suf) && s[len(s)-len(suf):] == suf }
 
 func registerSyncMapModels() {
+	externals["(*sync.Map).Store"] = func(fr *frame, args []value) value {
+		m := args[0].(*value)
+		hook(fr, "vOnSyncMap", "Store", args[1])
+		for i, e := range syncMaps[m] {
+			if equals(nil, e.k, args[1]) {
+				hook(fr, "vOnSyncMapOverwrite", args[1], e.v, args[2])
+				syncMaps[m][i].v = args[2]
+				return nil
+			}
+		}
+		syncMaps[m] = append(syncMaps[m], syncMapEntry{args[1], args[2]})
+		return nil
+	}
 	externals["(*sync.Map).LoadOrStore"] = func(fr *frame, args []value) value {
 		m := args[0].(*value)
+		hook(fr, "vOnSyncMap", "LoadOrStore", args[1])
 		for _, e := range syncMaps[m] {
 			if equals(nil, e.k, args[1]) {
+				hook(fr, "vOnSyncMapResult", args[1], e.v)
 				return tuple{e.v, true}
 			}
 		}
 		syncMaps[m] = append(syncMaps[m], syncMapEntry{args[1], args[2]})
+		hook(fr, "vOnSyncMapResult", args[1], args[2])
 		return tuple{args[2], false}
 	}
 	externals["(*sync.Map).Load"] = func(fr *frame, args []value) value {
 		m := args[0].(*value)
+		hook(fr, "vOnSyncMap", "Load", args[1])
 		for _, e := range syncMaps[m] {
 			if equals(nil, e.k, args[1]) {
 				return tuple{e.v, true}
@@ -166,3 +184,15 @@ func init() {
 		return nil
 	}
 }
+
+func init() {
+	// the parallelism limit is whatever the machine has: any value 1..64
+	lateModels["runtime.NumCPU"] = func(fr *frame, args []value) value {
+		t := ex.newInput("numcpu", 64)
+		ex.assume(mkAnd(mkCmp("bvuge", t, mkConst(64, 1)), mkCmp("bvule", t, mkConst(64, 64))))
+		return mkSym(t, types.Int)
+	}
+}
+
+// HeldLocks: number of mutexes the analysed thread holds (intrinsic vHeld).
+func heldCount() int { return len(heldLocks) + len(rwHeld) }
